@@ -194,7 +194,11 @@ Section Values.
                                                   end
                                       end) (e_out E) with
             | None => None
-            | Some extra => Some (einsum_sem (args ++ concat extra) (e_out E), e_amap E)
+            | Some extra =>
+                match args ++ concat extra with
+                | [] => None          (* numpy.einsum without operands raises ValueError *)
+                | ops => Some (einsum_sem ops (e_out E), e_amap E)
+                end
             end
         end
     | _, _ => None
